@@ -463,14 +463,19 @@ int main(void)
 			/* r.strm RULE-TOKENS | from=HEX [zone=NAME] [scale=N] n=N : the rule stream as the parser builds it, N pops */
 			int bar = 1; while (bar < ntk && strcmp(toks[bar], "|")) bar++;
 			struct rrulsp_s r = read_rule(toks + 1, bar - 1);
-			echs_instant_t from = {.u = 0}; size_t n = 10; const char *zone = NULL; int sc = 0;
+			echs_instant_t from = {.u = 0}; size_t n = 10; const char *zone = NULL; int sc = 0; int refused = 0;
 			for (int i = bar + 1; i < ntk; i++) {
 				if (!strncmp(toks[i], "from=", 5)) from.u = strtoull(toks[i] + 5, NULL, 16);
-				else if (!strncmp(toks[i], "ds=", 3)) from = dt_strp(toks[i] + 3, NULL, 0U);
+				else if (!strncmp(toks[i], "ds=", 3)) {
+					/* the value of a DTSTART line the way the parser reads it */
+					from = snarf_dt(":", toks[i] + 3, toks[i] + strlen(toks[i]));
+					if (echs_nul_instant_p(from)) refused = 1;
+				}
 				else if (!strncmp(toks[i], "n=", 2)) n = strtoul(toks[i] + 2, NULL, 10);
 				else if (!strncmp(toks[i], "zone=", 5)) zone = toks[i] + 5;
 				else if (!strncmp(toks[i], "scale=", 6)) sc = atoi(toks[i] + 6);
 			}
+			if (refused) { puts("refused"); continue; }      /* no DTSTART, no task */
 			if (sc) from = echs_instant_attach_scale(from, (echs_scale_t)sc);
 			if (zone) from = echs_instant_attach_tzob(from, echs_tzob(zone, strlen(zone)));
 			echs_evstrm_t st = echs_make_evstrm_rrul(from, &r, 1U);
